@@ -8,7 +8,7 @@ import (
 	"verifharness/internal/routing"
 )
 
-var codes = []int{200, 201, 202, 400, 404, 418, 500}
+var codes = []int{200, 201, 202, 204, 304, 400, 404, 418, 500, 503} // 204 and 304: answers that "have no body" are a favourite place for special cases
 var aeVals = []string{"", "gzip", "deflate", "gzip, deflate", "deflate, gzip", "gzip;q=0", "identity", "x-gzip", "br", "GZIP", "garbage", "deflate;q=0.5, gzip;q=1.0", "*"}
 
 // SmallPayloads caps generated payloads at a few dozen bytes (streams whose subject is not the coding).
